@@ -61,11 +61,13 @@ type c11Scenario struct {
 	subTID []int
 	hung   bool
 	builtN int
+	saltN  int
 }
 
 type c11Ev struct {
 	what   string
 	thread int
+	salt   int
 }
 
 type c11Next struct {
@@ -155,9 +157,13 @@ func (sc *c11Scenario) build(s *simrt.Sim, n c11Node, v0 int) *fpgo.MonadIODef[i
 			mk = (&fpgo.MonadIODef[int]{}).New // method-style constructor
 		}
 		m = mk(func() int {
-			sc.log = append(sc.log, c11Ev{fmt.Sprintf("e%d", n.ID), s.Self().ID})
+			// the value of an effect differs from invocation to invocation (a counter, a clock, an HTTP
+			// response): what an evaluation delivers must be what THAT evaluation computed
+			sc.saltN++
+			salt := 1000 * sc.saltN
+			sc.log = append(sc.log, c11Ev{fmt.Sprintf("e%d", n.ID), s.Self().ID, salt})
 			s.Yield()
-			return v0 + n.C
+			return v0 + n.C + salt
 		})
 	} else {
 		m = fpgo.MonadIOJustGenerics(v0 + n.C)
@@ -165,7 +171,7 @@ func (sc *c11Scenario) build(s *simrt.Sim, n c11Node, v0 int) *fpgo.MonadIODef[i
 	for _, f := range n.Chain {
 		f := f
 		m = m.FlatMap(func(v int) *fpgo.MonadIODef[int] {
-			sc.log = append(sc.log, c11Ev{fmt.Sprintf("f%d", f.ID), s.Self().ID})
+			sc.log = append(sc.log, c11Ev{fmt.Sprintf("f%d", f.ID), s.Self().ID, 0})
 			s.Yield()
 			return sc.build(s, f.Body, v)
 		})
@@ -195,10 +201,15 @@ func (sc *c11Scenario) Run(s *simrt.Sim) {
 	want := c11RefVal(sc.Tree, 0)
 	// (b) Eval n times
 	for i := 0; i < sc.Evals; i++ {
+		before := len(sc.log)
 		op := h.Do("main", "Eval", i, func() (interface{}, error) { return m.Eval(), nil })
 		sc.evalOp = append(sc.evalOp, op)
-		if op.Panic == "" && op.Val != want {
-			add("value", "Eval-wrong-value", fmt.Sprintf("Eval #%d returned %v, the composition's value is %d", i, op.Val, want))
+		w := want
+		for _, e := range sc.log[before:] {
+			w += e.salt
+		}
+		if op.Panic == "" && op.Val != w {
+			add("value", "Eval-wrong-value", fmt.Sprintf("Eval #%d returned %v, this evaluation computed %d", i, op.Val, w))
 		}
 	}
 	evalLog := sc.log
@@ -327,6 +338,7 @@ func (sc *c11Scenario) laws(s *simrt.Sim, add func(clause, fp, detail string)) {
 		v := mk().Eval()
 		var effects []string
 		for _, e := range sc.log {
+			v -= e.salt // compare the laws modulo the per-invocation part of the effects' values
 			if e.what[0] == 'e' {
 				effects = append(effects, e.what)
 			}
@@ -430,12 +442,46 @@ func (sc *c11Scenario) Check(res *simrt.Result) []Violation {
 			add("routing", "effect-on-wrong-thread", fmt.Sprintf("an effect ran on T%d, which is neither the ObserveOn handler (T%d) of a subscription made with it nor the thread of a subscriber made without one", tid, sc.h1))
 		}
 	}
+	// every evaluation computed its own value (want + the salts of its effects): the values delivered
+	// to OnNext must be exactly those, each once
+	expected := map[int]int{}
+	if len(ref) > 0 {
+		byThread := map[int][]c11Ev{}
+		var order []int
+		for _, e := range sc.log {
+			if _, ok := byThread[e.thread]; !ok {
+				order = append(order, e.thread)
+			}
+			byThread[e.thread] = append(byThread[e.thread], e)
+		}
+		for _, tid := range order {
+			l := byThread[tid]
+			for i := 0; i+len(ref) <= len(l); i += len(ref) {
+				v := want
+				for _, e := range l[i : i+len(ref)] {
+					v += e.salt
+				}
+				expected[v]++
+			}
+		}
+	} else {
+		expected[want] = sc.Subs
+	}
+	gotVals := map[int]int{}
+	for _, n := range sc.onNext {
+		gotVals[n.val]++
+	}
+	if len(vs) == 0 {
+		for v, n := range gotVals {
+			if expected[v] < n {
+				add("value", "OnNext-value-of-another-evaluation", fmt.Sprintf("OnNext delivered %d %d time(s) but the evaluations computed %v (each must be delivered exactly once); deliveries %v", v, n, expected, gotVals))
+				break
+			}
+		}
+	}
 	perSub := map[int]int{}
 	for _, n := range sc.onNext {
 		perSub[n.sub]++
-		if n.val != want {
-			add("value", "OnNext-wrong-value", fmt.Sprintf("OnNext got %d, the composition's value is %d", n.val, want))
-		}
 		ob, sb := obOf(n.sub), subOf(n.sub)
 		if ob == -2 || sb == -2 {
 			continue
